@@ -54,13 +54,16 @@ AllParts == {"g", "gamma", "c", "tau", "N", "F", "S"}
 
 \* "nonfinite" is not a hook: the harness reports it when a stored row of an implicit solver contains NaN/inf
 \* although every solve of that step claimed convergence (a solve that produces NaN has not converged)
+\* "unmet" is not a hook either: the harness wraps the helpers the solvers call (fsolve, the fixed-point helpers of the dual Stoermer-Verlet
+\* scheme) and, when a helper returns normally and claims convergence, evaluates the helper's documented criterion at the returned point
+\* once more; a point that misses it by more than a factor is a nonlinear solve / fixed-point loop that failed -- whatever the helper said
 Sites(s) ==
     CASE s = "Moreau"            -> {"moreau.fp"}
-      [] s = "BackwardEuler"     -> {"fsolve", "backward_euler.fp", "nonfinite"}
-      [] s = "Rattle"            -> {"fsolve", "rattle.fp1", "rattle.fp2", "nonfinite"}
-      [] s = "DualStormerVerlet" -> {}
-      [] s = "Newton"            -> {"fsolve", "nonfinite"}
-      [] s = "Riks"              -> {"fsolve"}
+      [] s = "BackwardEuler"     -> {"fsolve", "backward_euler.fp", "nonfinite", "unmet"}
+      [] s = "Rattle"            -> {"fsolve", "rattle.fp1", "rattle.fp2", "nonfinite", "unmet"}
+      [] s = "DualStormerVerlet" -> {"unmet"}
+      [] s = "Newton"            -> {"fsolve", "nonfinite", "unmet"}
+      [] s = "Riks"              -> {"fsolve", "unmet"}
       [] s = "ScipyIVP"          -> {"integrator"}
       [] s = "ScipyDAE"          -> {"integrator"}
 
